@@ -423,13 +423,13 @@ const maxExhaustive = 5
 func TestCheck(t *testing.T) {
 	cfg := mon.Load("C07")
 	rep := mon.NewReporter(cfg, "exploration",
-		"one case = one generated well-formed construction (typed lambdas, pass-through nodes, keyed ports, typed branches, state handlers over a 9-type universe, types partly hostile) added in every order of its edge/branch calls (≤5 calls: all orders, else 200 random), each order 3×, every accepted graph run in Invoke and Stream with every legal dynamic input value × branch choices × emitted dynamic values; non-trivial = at least one order compiled and the construction contains a pass-through node, a branch or a may-assignable connection",
+		"one case = one generated well-formed construction (typed lambdas, pass-through nodes, keyed ports, typed branches, state handlers over a 12-type universe that includes a named map and a named slice next to their unnamed literal forms, types partly hostile incl. such near misses) added in every order of its edge/branch calls (≤5 calls: all orders, else 200 random), each order 3×, every accepted graph run in Invoke and Stream with every legal dynamic input value × branch choices × emitted dynamic values; non-trivial = at least one order compiled and the construction contains a pass-through node, a branch or a may-assignable connection",
 		[]string{
 			"node, condition and handler bodies never fail by themselves and only forward errors they receive from the framework's streams, so every failure of a run over a compiled graph is the framework's",
-			"the reference lattice is reflect's AssignableTo/Implements (must / may / must-not); a connection is judged between the declared types of its two ends, a pass-through node carrying the type eino reports for it in GraphInfo provided that type is the type of a typed neighbour of the node's pass-through component (otherwise the node is transparent)",
+			"the reference lattice is what a type assertion accepts — identical type, or Implements for an interface target (must / may / must-not); distinct types with the same underlying type (map[string]any vs Vars, []string vs Names) are must-not, unlike reflect's AssignableTo; a connection is judged between the declared types of its two ends, a pass-through node carrying the type eino reports for it in GraphInfo provided that type is the type of a typed neighbour of the node's pass-through component (otherwise the node is transparent)",
 			"only soundness is judged: accepted ⇒ no panic, an ordinary error exactly when a dynamic value is not assignable across a may-connection; rejections of constructions the order-independent (transparent) reference considers well typed are only counted (info_completeness_*)",
 			"a nil interface value has no dynamic type and is not generated; runs whose failure would be legitimate for another reason (input key absent from the map, several non-map chunks to concatenate) are not generated or counted as unjudged",
-		}, cfg.Pick(100, 2000))
+		}, cfg.Pick(80, 2000))
 	defer func() {
 		if err := rep.Flush(); err != nil {
 			t.Fatalf("flush: %v", err)
